@@ -309,8 +309,11 @@ class Chain:
                 if kw['sender'] != contract or not tf_admin_ok(contract, d):
                     raise TxFailed('token factory: unauthorized mint of ' + d)
                 bk = bank_of(I)
+                new_supply = simp(bk.supply.get(d, 0) + coin.get('amount'))
+                if I.fork(new_supply > (1 << 128) - 1):
+                    raise TxFailed('mint would overflow the 128-bit supply')
                 bk.add(_need_concrete(kw['to'], 'address'), d, coin.get('amount'))
-                bk.supply[d] = simp(bk.supply.get(d, 0) + coin.get('amount'))
+                bk.supply[d] = new_supply
             elif tk == 'burn':
                 coin = kw['coin']
                 d = _need_concrete(coin.get('denom'), 'denom')
